@@ -154,7 +154,9 @@ def _l2_traces(ctx, prop, histories=None):
             histories += [mcm.gen_identity(mcm.SCENARIOS['base'], rng, rng.choice([4, 6, 9]))
                           for _ in range(n // 2)]
     out = []
-    for t in mcm.record('base', histories):
+    raw = mcm.record('base', histories)
+    ctx.l2raw = raw
+    for t in raw:
         for seg in master_l2.sched_segments('l2-' + t['tid'], t['lines']):
             seg['history'] = t['history']
             seg['src'] = 'l2'
@@ -198,6 +200,22 @@ def run(ctx, prop):
     total = sum(len(t['lines']) - 1 for t in traces if t['tid'] not in bad)
     if len(verdicts) != total:
         raise tlc.MachineryError('trace spec judged %d of %d lines' % (len(verdicts), total))
+    extra_viol = []
+    if prop == 'C08' and getattr(ctx, 'l2raw', None):
+        # master-level observation point of C08: the state record in /placement/<server>
+        from . import master_common as mcm
+        v2, st2 = mcm.validate(ctx.l2raw)
+        ctx.cmds.append(st2.get('cmd', ''))
+        by = {t['tid']: t for t in ctx.l2raw}
+        for v in v2:
+            if 'C08.stateRecord' in v['fail']:
+                t = by[v['tid']]
+                extra_viol.append(dict(
+                    clause='C08.stateRecord', signature='C08.stateRecord',
+                    what='after %s at step %d of l2 %s' % (t['lines'][v['i']]['ev'], v['i'], t['tid']),
+                    replay_payload=dict(kind='sched_l2', property=prop, clause='C08.stateRecord',
+                                        scenario='base', history=t['history'][:v['i']], failed_step=v['i'])))
+    ctx.extra_violations = extra_viol
     rc = judge(ctx, prop, [t for t in traces if t['tid'] not in bad], verdicts)
     if unjudged and rc == 0:
         raise tlc.MachineryError('%d recorded traces could not be evaluated by the trace spec '
@@ -287,6 +305,7 @@ def judge(ctx, prop, traces, verdicts):
     if ctx.drift:
         print('DRIFT: %d recorded steps are not explained by the cycle/event model '
               '(spec needs updating; not a violation)' % ctx.drift)
+    violations += getattr(ctx, 'extra_violations', [])
     return core.conclude(
         ctx, level='model_checking', violations=violations, evaluations=evaluations,
         distinct_nontrivial=len(nontrivial), rule=CONF[prop]['rule'], samples=samples,
